@@ -129,4 +129,34 @@ example : (run demoParams init (demoFetchPrefix ++ demoFetchSuffix)).map
       (fun s => (s.fin, s.com, s.outcomes)) =
     some (2, 2, [.ok [(0, 5)] 0, .ok [(1, 6)] 5]) := by decide
 
+/-- **readOk_iff.** The per-read check of `validate`, stated outright: a recorded read passes iff
+    the location still resolves to the very entry it was read from (same writer, same incarnation,
+    not flagged as an estimate), or it was read from storage and there is still no preceding
+    writer. -/
+theorem readOk_iff (mv : Loc → TxId → Option Entry) (i : TxId) (r : ReadRec) :
+    readOk mv i r = true ↔
+      (∃ k e, resolve mv i r.loc = some (k, e) ∧ e.est = false ∧ r.ver = some (k, e.inc)) ∨
+      (resolve mv i r.loc = none ∧ r.ver = none) := by
+  unfold readOk
+  cases h : resolve mv i r.loc with
+  | none => simp
+  | some p =>
+    obtain ⟨k, e⟩ := p
+    simp only [Bool.and_eq_true, Bool.not_eq_true', decide_eq_true_eq]
+    constructor
+    · rintro ⟨h1, h2⟩
+      exact Or.inl ⟨k, e, rfl, h1, h2⟩
+    · rintro (⟨k', e', h1, h2, h3⟩ | ⟨h1, _⟩)
+      · cases h1; exact ⟨h2, h3⟩
+      · cases h1
+
+/-- **vanished_source_is_conflict** (the case seeded change C01d removes).  A read recorded from a
+    multi-version entry whose location no longer resolves to ANY preceding writer — the writer was
+    re-executed, stopped writing it, and its stale entry was removed — fails validation. -/
+theorem vanished_source_is_conflict (mv : Loc → TxId → Option Entry) (i : TxId) (r : ReadRec)
+    (hgone : resolve mv i r.loc = none) (hmv : r.ver ≠ none) : readOk mv i r = false := by
+  unfold readOk
+  rw [hgone]
+  simpa using hmv
+
 end Grevm.Sched
